@@ -246,6 +246,58 @@ def procHandler {P : Type} (sg : Sig P) : Handler (PS P) where
       | f :: _ => [f]
     once ++ bound ++ iso ++ late ++ trig
 
+/-! ### concurrent first arrivals against the cardinality limit (monitor only) -/
+
+structure CS where
+  limit : Nat := 0
+  accepted : List (Nat × String) := []   -- record id, group
+  refused : List (Nat × String) := []
+  emitted : List (Nat × String) := []
+  bad : Option String := none
+
+/-- the monitor: what the property says about any accept / refuse / emit log with a cardinality limit, whatever the
+interleaving was.  `consume` is one atomic label of the model (`Proc.arrive`, `C17_cardinality`): a log the model can
+produce satisfies all four clauses. -/
+def cardHandler : Handler CS where
+  init := {}
+  onOp := fun s toks =>
+    match toks with
+    | "trial" :: rest =>
+      match kvNat rest "limit" with
+      | some l => ({ s with limit := l }, [])
+      | Option.none => (s, ["obs bad-op"])
+    | _ => (s, ["obs bad-op"])
+  onObs := fun s toks =>
+    match toks with
+    | ["tr", "accept", k, id] =>
+      match kv [k] "k", kvNat [id] "id" with
+      | some k, some id => { s with accepted := s.accepted ++ [(id, k)] }
+      | _, _ => { s with bad := some "accept" }
+    | ["tr", "refuse", k, id] =>
+      match kv [k] "k", kvNat [id] "id" with
+      | some k, some id => { s with refused := s.refused ++ [(id, k)] }
+      | _, _ => { s with bad := some "refuse" }
+    | ["tr", "emit", k, ids] =>
+      match kv [k] "k", (kv [ids] "ids").bind (fun x => if x = "" then some [] else (x.splitOn ",").mapM String.toNat?) with
+      | some k, some ids => { s with emitted := s.emitted ++ ids.map (fun i => (i, k)) }
+      | _, _ => { s with bad := some "emit" }
+    | _ => s
+  onEnd := fun s =>
+    match s.bad with
+    | some b => [s!"prop cardinality=FAIL sig=C17/proc/unparsable-trace {b}"]
+    | Option.none =>
+      let groups := (s.accepted.map (·.2)).eraseDups
+      [ if groups.length > s.limit then
+          s!"prop cardinality=FAIL sig=C17/proc/accepted-beyond-cardinality-limit groups={groups.length} limit={s.limit}"
+        else if !s.refused.isEmpty && groups.length < s.limit then
+          s!"prop cardinality=FAIL sig=C17/proc/refused-below-limit groups={groups.length} limit={s.limit}"
+        else "prop cardinality=ok",
+        if permB (s.emitted.map (·.1)) (s.accepted.map (·.1)) then "prop exactly_once=ok"
+        else "prop exactly_once=FAIL sig=C17/proc/items-lost-duplicated-or-invented",
+        match s.emitted.find? (fun e => (s.accepted.find? (fun a => a.1 = e.1)).any (fun a => a.2 ≠ e.2)) with
+        | some e => s!"prop isolation=FAIL sig=C17/proc/item-in-foreign-group item={e.1} sent_as={e.2}"
+        | Option.none => "prop isolation=ok" ]
+
 end OtelVerif.Drivers.C17
 
 def main : IO UInt32 :=
@@ -253,4 +305,5 @@ def main : IO UInt32 :=
   -- the processor model is chosen by `kind=` of the first `op cfg`; two drivers share the line format, so peek
   runMulti [("c17-split", run OtelVerif.Drivers.C17.splitHandler),
             ("c17-proc-logs", run (OtelVerif.Drivers.C17.procHandler OtelVerif.Drivers.C17.logsSig)),
-            ("c17-proc-metrics", run (OtelVerif.Drivers.C17.procHandler OtelVerif.Drivers.C17.metricsSig))]
+            ("c17-proc-metrics", run (OtelVerif.Drivers.C17.procHandler OtelVerif.Drivers.C17.metricsSig)),
+            ("c17-card", run OtelVerif.Drivers.C17.cardHandler)]
